@@ -151,6 +151,40 @@ def readAfter (own : Caps) (others : List Caps) : Caps :=
   | none => own
   | some x => x
 
+/-! ### server: list filters (what `updateCapabilities` looks at)
+
+`WithPromptListFilter` / `WithResourceListFilter` narrow what `prompts/list` / `resources/list` return to a caller.  The
+capabilities are a statement about the registries; whether the handshake sees the registries or a caller's filtered
+view of them is decided by which accessors `updateCapabilities` calls — regenerated from the source. -/
+
+/-- One method `updateCapabilities` calls on one of its manager fields (regenerated). -/
+structure CapSource where
+  field : Text
+  method : Text
+  /-- the method takes no parameter, mentions nothing named *filter*, calls only builtins and its own mutex -/
+  plain : Bool
+  deriving Repr, DecidableEq
+
+/-- What `updateCapabilities` consults (regenerated: `Mcp.Gen.capabilitySources`). -/
+structure CapSources where
+  accessors : List CapSource
+  /-- calls to anything but manager accessors, builtins and the manager's own mutex -/
+  otherCalls : Nat
+  params : Nat
+  /-- a parameter (a context, say) is used inside -/
+  usesParam : Bool
+  deriving Repr, DecidableEq
+
+/-- Exactly the two unfiltered registry readers, nothing else, nothing caller-dependent handed in. -/
+def CapSources.ok (s : CapSources) : Bool :=
+  s.accessors == [⟨t!"promptManager", t!"getPrompts", true⟩, ⟨t!"resourceManager", t!"getResources", true⟩] &&
+  s.otherCalls == 0 && !s.usesParam
+
+/-- The capabilities of an answer to a caller whose list filters turn the registry `r` into `view r`: computed from the
+    registry itself with the good shape, from the caller's view otherwise (worst case). -/
+def capabilitiesSeen (s : CapSources) (view : Registry → Registry) (r : Registry) : Caps :=
+  if s.ok then capabilities r else capabilities (view r)
+
 /-! ## client -/
 
 inductive Kind | streamable | sse | stdio
@@ -178,9 +212,11 @@ inductive Op
   | req (k : OpK) (fail : Bool)   -- `fail`: the server answers this request with a JSON-RPC error
   | rootsChanged                  -- SendRootsListChangedNotification
   | sendInitialized               -- Client.SendInitialized (exported on the HTTP client only)
-  | terminate                     -- Client.TerminateSession (HTTP client only)
+  | terminate (fault : Bool)      -- Client.TerminateSession (HTTP client only); `fault`: the DELETE fails (server gone,
+                                  -- connection reset, answered 500)
   | restart                       -- StdioClient.RestartProcess (stdio only)
-  | close
+  | close (fault : Bool)          -- Close; `fault`: the transport's close() reports an error (child already dead and
+                                  -- reaped: its pipes are closed; a failed kill).  Only the stdio transport has such paths.
   deriving Repr, DecidableEq
 
 /-- A message put on the wire (an HTTP round trip attempted / a line written to the child process). -/
@@ -207,8 +243,11 @@ inductive Res
 structure Guards where
   req : OpK → Bool
   roots : Bool
+  /-- `Close` resets the flag and the reported state on EVERY path that follows the transport's close(), in particular
+      before the return that passes a transport error on (regenerated: `clientLifecycleFacts`). -/
+  closeResets : Bool
 
-def Guards.all : Guards := ⟨fun _ => true, true⟩
+def Guards.all : Guards := ⟨fun _ => true, true, true⟩
 
 structure ClientSM where
   initialized : Bool := false
@@ -296,6 +335,16 @@ def stepClose (k : Kind) (sm : ClientSM) : ClientSM :=
   | .streamable => { sm with initialized := false, state := .disconnected }
   | .sse | .stdio => { sm with initialized := false, state := .disconnected, closed := true }
 
+/-- `Close`: `err := transport.close(); setState(disconnected); initialized = false; return err`.  In the bad region (a
+    Close that returns the transport error BEFORE the reset) a faulted close leaves flag and state as they were, on a
+    transport that is closed all the same. -/
+def stepCloseOp (G : Guards) (k : Kind) (sm : ClientSM) (fault : Bool) : Out :=
+  if fault && !G.closeResets then
+    (match k with
+     | .streamable => sm
+     | .sse | .stdio => { sm with closed := true }, .failed, [])
+  else (stepClose k sm, if fault then .failed else .ok, [])
+
 def stepRaw (G : Guards) (k : Kind) (sm : ClientSM) : Op → Out
   | .init e => stepInit k sm e
   | .req o f => stepReq G k sm o f
@@ -304,16 +353,20 @@ def stepRaw (G : Guards) (k : Kind) (sm : ClientSM) : Op → Out
     match k with
     | .stdio => (sm, .na, [])
     | _ => stepNotify k sm .initNotif
-  | .terminate =>
+  | .terminate tf =>
     match k with
-    | .streamable => if sm.session then ({ sm with session := false }, .ok, [.delete]) else (sm, .failed, [])
+    | .streamable =>
+      if sm.session then
+        (if tf then (sm, .failed, [.delete])             -- the session id is forgotten only after a 200
+         else ({ sm with session := false }, .ok, [.delete]))
+      else (sm, .failed, [])
     | .sse => (sm, .ok, [])
     | .stdio => (sm, .na, [])
   | .restart =>
     match k with
     | .stdio => (stepClose k sm, .failed, [])     -- close, reset, then startProcess refuses: closed
     | _ => (sm, .na, [])
-  | .close => (stepClose k sm, .ok, [])
+  | .close f => stepCloseOp G k sm f
 
 /-- One call: the raw step plus the wire counter. -/
 def step (G : Guards) (k : Kind) (sm : ClientSM) (op : Op) : Out :=
@@ -343,7 +396,7 @@ def specState (prev : CState) (op : Op) (r : Res) : CState :=
   match op, r with
   | .init _, .ok => .initialized
   | .init _, .failed => .disconnected
-  | .close, _ => .disconnected
+  | .close _, _ => .disconnected
   | .restart, .failed => .disconnected
   | _, _ => prev
 
@@ -384,8 +437,16 @@ def recvOf : Kind → Text
   | .streamable | .sse => t!"Client"
   | .stdio => t!"StdioClient"
 
-def guardsOf (facts : List OpFact) (k : Kind) : Guards :=
+/-- The last component of a `clientLifecycleFacts` entry: Close resets flag and state on every path after the transport's
+    close(). Not listed = not known = false. -/
+def lookupCloseResets (lf : List (Text × Bool × Bool × Bool × Bool)) (recv : Text) : Bool :=
+  match lf with
+  | [] => false
+  | x :: rest => if x.1 = recv then x.2.2.2.2 else lookupCloseResets rest recv
+
+def guardsOf (facts : List OpFact) (lf : List (Text × Bool × Bool × Bool × Bool)) (k : Kind) : Guards :=
   { req := fun o => lookupGuard facts (recvOf k) (opName o),
-    roots := lookupGuard facts (recvOf k) t!"SendRootsListChangedNotification" }
+    roots := lookupGuard facts (recvOf k) t!"SendRootsListChangedNotification",
+    closeResets := lookupCloseResets lf (recvOf k) }
 
 end Mcp.Lifecycle
